@@ -3,22 +3,38 @@
    10^decimals rounded the same way, truncation; bigIntToStr by digit-string splitting). *)
 From Coq Require Import List NArith ZArith Lia.
 From V.Base Require Import Hex.
-From V.C18 Require Import Model Proofs.
+From V.C18 Require Import Model Proofs Proofs2.
 Import ListNotations.
 Local Open Scope Z_scope.
 
-(* Formatting an integer and parsing the string back returns the integer, for every |n| < 2^450
-   (the EVM word / balance range |n| < 2^256 with a visible margin). *)
-Theorem C18_roundtrip : forall n, Z.abs n < 2 ^ 450 -> str_to_bigint (bigint_to_str n) = Ok n.
-Proof. exact roundtrip. Qed.
+(* Formatting an integer and parsing the string back returns the integer, for every |n| < 2^510
+   (the EVM word / balance range |n| < 2^256 with a visible margin).  The bound is sharp within a factor
+   of two: see C18_roundtrip_limit_refuted. *)
+Theorem C18_roundtrip : forall n, Z.abs n < 2 ^ 510 -> str_to_bigint (bigint_to_str n) = Ok n.
+Proof. exact roundtrip_sharp. Qed.
 Print Assumptions C18_roundtrip.
 
 Theorem C18_roundtrip_evm_word : forall n, - 2 ^ 256 < n < 2 ^ 256 -> str_to_bigint (bigint_to_str n) = Ok n.
 Proof.
-  intros n H. apply roundtrip. unfold bound450.
-  assert (2 ^ 256 < 2 ^ 450) by (apply Z.pow_lt_mono_r; lia). lia.
+  intros n H. apply roundtrip_sharp. unfold bound510.
+  assert (2 ^ 256 < 2 ^ 510) by (apply Z.pow_lt_mono_r; lia). lia.
 Qed.
 Print Assumptions C18_roundtrip_evm_word.
+
+(* Outside the EVM range the 512-bit float does lose the value: 2^511 - 1 comes back as 2^511. *)
+Theorem C18_roundtrip_limit_refuted :
+  exists n, 0 <= n < 2 ^ 511 /\ str_to_bigint (bigint_to_str n) <> Ok n.
+Proof.
+  exists (2 ^ 511 - 1). split; [split; [vm_compute; discriminate | reflexivity]|].
+  rewrite roundtrip_limit. vm_compute. discriminate.
+Qed.
+Print Assumptions C18_roundtrip_limit_refuted.
+
+(* The formatter is injective on that range (two different amounts never print alike). *)
+Theorem C18_format_injective : forall n m, Z.abs n < 2 ^ 510 -> Z.abs m < 2 ^ 510 ->
+  bigint_to_str n = bigint_to_str m -> n = m.
+Proof. exact format_injective. Qed.
+Print Assumptions C18_format_injective.
 
 (* A decimal string  sign? ip [ "." fp ]  with at most 78 integer digits and at most 18 fractional
    digits parses to exactly the integer it denotes in 18-decimal units: no binary rounding is visible. *)
@@ -44,9 +60,9 @@ Proof. exact str_value. Qed.
 Print Assumptions C18_parse_value.
 
 (* Re-scaling between the ledger unit and a token with 18 decimals is the identity. *)
-Theorem C18_rescale_id : forall n, Z.abs n < 2 ^ 450 ->
+Theorem C18_rescale_id : forall n, Z.abs n < 2 ^ 510 ->
   format_erc20 n 18 = Ok n /\ format_rocket n 18 = Ok n.
-Proof. exact rescale_id. Qed.
+Proof. exact rescale_id_sharp. Qed.
 Print Assumptions C18_rescale_id.
 
 (* Other decimal counts 0..18: ledger -> token truncates toward zero, token -> ledger is exact. *)
@@ -55,10 +71,24 @@ Theorem C18_rescale_erc20 : forall n d, 0 <= d <= 18 -> Z.abs n < 2 ^ 450 ->
 Proof. exact rescale_erc20. Qed.
 Print Assumptions C18_rescale_erc20.
 
-Theorem C18_rescale_rocket : forall n d, 0 <= d <= 18 -> Z.abs n < 2 ^ 450 ->
+Theorem C18_rescale_rocket : forall n d, 0 <= d <= 18 -> Z.abs n * 10 ^ (18 - d) < 2 ^ 510 ->
   format_rocket n d = Ok (n * 10 ^ (18 - d)).
-Proof. exact rescale_rocket. Qed.
+Proof. exact rescale_rocket_sharp. Qed.
 Print Assumptions C18_rescale_rocket.
+
+(* The two directions composed as the account database composes them for a coin bound to an ERC20
+   contract with d decimals (GetBalance = FormatDecimalForRocket of the stored word, SetBalance stores
+   FormatDecimalForERC20): reading and writing back is the identity on the stored word; writing and
+   reading back rounds the ledger amount toward zero to a multiple of 10^(18-d) -- identity for d = 18. *)
+Theorem C18_token_ledger_token : forall m d, 0 <= d <= 18 -> Z.abs m * 10 ^ (18 - d) < 2 ^ 450 ->
+  exists r, format_rocket m d = Ok r /\ format_erc20 r d = Ok m.
+Proof. exact token_ledger_token. Qed.
+Print Assumptions C18_token_ledger_token.
+
+Theorem C18_ledger_token_ledger : forall n d, 0 <= d <= 18 -> Z.abs n < 2 ^ 450 ->
+  exists t, format_erc20 n d = Ok t /\ format_rocket t d = Ok (n - Z.rem n (10 ^ (18 - d))).
+Proof. exact ledger_token_ledger. Qed.
+Print Assumptions C18_ledger_token_ledger.
 
 (* The error bound of one rounding that everything rests on: the away-from-zero rounding of n/d at
    precision p lies in [n/d, n/d * (1 + 2^(1-p))]. *)
